@@ -29,6 +29,7 @@ type wscenario struct {
 	FailAt  int    `json:"failAt"`
 	Partial int    `json:"partial"`
 	Ext     bool   `json:"ext"` // attach a wsflate.MessageState from the start
+	NoCap   bool   `json:"-"`   // sizes are absolute (replay of model behaviours): do not cap them
 }
 
 // wev is one logged event; every field is always present so that the TLA+
@@ -55,6 +56,24 @@ type wev struct {
 	OkLimit    int    `json:"oklimit"`
 	Calls      int    `json:"calls"` // destination write calls so far
 	Twin       string `json:"twin"`  // after Reset: same|diff compared with a fresh instance in lock-step
+	St         wst    `json:"st"`    // internal state through the verif-tagged hook (strict / replay conformance only)
+}
+
+// wst mirrors wsutil.WriterVerifState.
+type wst struct {
+	Raw     int  `json:"raw"`
+	Buf     int  `json:"buf"`
+	N       int  `json:"n"`
+	Dirty   bool `json:"dirty"`
+	Fseq    int  `json:"fseq"`
+	Err     bool `json:"err"`
+	NoFlush bool `json:"noflush"`
+	Exts    int  `json:"exts"`
+}
+
+func stOf(w *wsutil.Writer) wst {
+	v := w.VerifState()
+	return wst{v.Raw, v.Buf, v.N, v.Dirty, v.Fseq, v.Err, v.NoFlush, v.Extensions}
 }
 
 var errSrc = errors.New("injected source error")
@@ -124,7 +143,7 @@ type wrunner struct {
 // flush-disabled writer (whose Size() grows with every write) stays small.
 func resolve(arg string, w *wsutil.Writer) int {
 	n := resolve0(arg, w)
-	if n > 300000 {
+	if n > 300000 && !noCap {
 		n = n%1000 + 1
 	}
 	return n
@@ -222,7 +241,10 @@ func newWriterFor(sc wscenario, d *vh.Dest) *wsutil.Writer {
 	return nil
 }
 
+var noCap bool
+
 func runWriter(sc wscenario) (evs []wev) {
+	noCap = sc.NoCap
 	d := &vh.Dest{FailAt: sc.FailAt, Partial: sc.Partial}
 	r := &wrunner{d: d}
 	defer func() {
@@ -335,6 +357,7 @@ func runOps(r *wrunner, ops []wop) (evs []wev) {
 		default:
 			vh.Fatal("bad op %q", o.Name)
 		}
+		e.St = stOf(r.w)
 		r.evs = append(r.evs, e)
 	}
 	return r.evs
